@@ -131,7 +131,26 @@ def r2_embedding(ctx) -> None:
         r.ok("C10.R2", cr.qual, "referenced rule list rendered in reference order with name or id", cr.loc)
     else:
         r.violation("C10.R2", cr.qual, "convert_referenced_rules", "referenced rules are not rendered in order with `name or id`", cr.loc)
-    r.floor("C10.R2", 5)
+    # which rules are embedded, and in which order: the explicit rules list wins, the condition text is only the fallback
+    rr = prog.func("sigma.correlations.SigmaCorrelationRule.resolve_rule_references")
+    stores = [n for n in walk_no_nested(rr.node) if isinstance(n, ast.Assign) and unparse(n.targets[0]) == "self.referenced_rules"]
+    if not stores:
+        raise AnalysisError(f"{rr.qual}: stores to self.referenced_rules not found")
+    for st in stores:
+        gs = atomic_guards(guards_at(prog, rr, st))
+        v = unparse(st.value)
+        loc = f"{rr.module.relpath}:{st.lineno}"
+        if v == "self.rules":
+            if ("self.rules is not None", True) in gs and not any("SigmaExtendedCorrelationCondition" in g for g, _ in gs):
+                r.ok("C10.R2", rr.qual, "referenced_rules = the explicit rules list whenever one is given (its order is the order of {referenced_rules} and of the sub-queries)", loc)
+            else:
+                r.violation("C10.R2", rr.qual, stmt_head(st), f"the explicit rules list is used only under {gs}: for an extended condition the order of first mention in the condition text replaces the order of `rules:`, so eventtype_order / the sub-query order of a temporal_ordered correlation changes", loc)
+        elif "get_referenced_rules" in v or "referenced_rule_names" in v:
+            if ("self.rules is not None", False) in gs:
+                r.ok("C10.R2", rr.qual, "rule names from the extended condition only when no rules list is given", loc)
+            else:
+                r.violation("C10.R2", rr.qual, stmt_head(st), "rule references derived from the condition text take precedence over the explicit rules list", loc)
+    r.floor("C10.R2", 7)
 
 
 def r3_timespan(ctx) -> None:
@@ -206,6 +225,18 @@ def r4_field_mapping(ctx) -> None:
 
 def r6_pass_through(ctx) -> None:
     r, prog = ctx.r, ctx.prog
+    # a log-source conditioned field mapping must reach a correlation through nested correlations
+    lm = prog.func("sigma.processing.conditions.rule.LogsourceCondition.match")
+    rec = [c for c in walk_no_nested(lm.node) if isinstance(c, ast.Call) and call_name(c) == "self.match"]
+    okrec = False
+    for c in rec:
+        gs = atomic_guards(guards_at(prog, lm, c))
+        if ("isinstance(rule, SigmaCorrelationRule)", True) in gs and any("SigmaCorrelationRule" in g and "ref.rule" in g and p for g, p in gs) and unparse(c.args[0]) == "ref.rule":
+            okrec = True
+    if okrec:
+        r.ok("C10.R4", lm.qual, "a correlation rule matches a log source condition through its referenced rules, recursively through referenced correlation rules", lm.loc)
+    else:
+        r.violation("C10.R4", lm.qual, "self.match(ref.rule) for SigmaRule and SigmaCorrelationRule references", "the log source condition no longer descends into referenced correlation rules: a log-source conditioned field mapping renames the base rules and inner correlations but leaves group-by, alias targets and the condition field of the outer correlation unmapped", lm.loc)
     r.rule("C10.R6", "condition operator, count, field and percentile reach the templates unchanged: op=correlation_condition_mapping[cond.op], count=cond.count, field=cond.fieldref / rule.condition.fieldref, percentile=rule.condition.percentile; the operator table maps lt,lte,gt,gte,eq,neq to <,<=,>,>=,==,!=; the correlation template receives search, typing, timespan, aggregate, condition and group-by")
     f = prog.func(TQ + ".convert_correlation_condition_from_template")
     calls = [c for c in walk_no_nested(f.node) if isinstance(c, ast.Call) and call_name(c) == "self._format_template"]
